@@ -201,6 +201,35 @@ func c04table(args []string) error {
 			if s := h1.Sum(nil); string(s) != string(got) {
 				got = append([]byte("WRITE!="), s...)
 			}
+			// Sum(b) for every prefix length 0..70 and every spare capacity 0..40 behind it (none, less than a digest, exactly
+			// a digest, more): b || digest, the prefix kept, the object usable afterwards
+			if len(m) <= 200 && string(got[:1]) != "S" && string(got[:1]) != "W" {
+				digest := append([]byte(nil), got...)
+				func() {
+					defer func() {
+						if p := recover(); p != nil {
+							got = append([]byte("SUMCAP-PANIC!="), []byte(fmt.Sprint(p))...)
+						}
+					}()
+					for pl := 0; pl <= 70; pl++ {
+						for spare := 0; spare <= 40; spare++ {
+							buf := make([]byte, pl, pl+spare)
+							for i := range buf {
+								buf[i] = byte(i*7 + 3)
+							}
+							out := h1.Sum(buf)
+							ok := len(out) == pl+32 && string(out[pl:]) == string(digest)
+							for i := 0; ok && i < pl; i++ {
+								ok = out[i] == byte(i*7+3) && buf[i] == byte(i*7+3)
+							}
+							if !ok {
+								got = append([]byte(fmt.Sprintf("SUMCAP(%d,%d)!=", pl, spare)), out...)
+								return
+							}
+						}
+					}
+				}()
+			}
 		case "hmac":
 			mac := hmac.New(sm3.New, c04Key(gi("klen")))
 			mac.Write(c04Msg(0, 0, gi("mlen")))
